@@ -50,6 +50,7 @@ type c05Sys struct {
 	bootUsed     map[string]bool
 	cliTok       map[string]string // token shown to user
 	logins       map[string]int
+	writeFail    bool // the primary store answers reads but refuses writes
 }
 
 func (s *c05Sys) Reset() {
@@ -67,6 +68,7 @@ func (s *c05Sys) Reset() {
 		s.f = vfFakesStart()
 	}
 	s.pool, s.push, s.bjar, s.bpush, s.chals = nil, nil, nil, nil, nil
+	s.writeFail = false
 	s.lastAssert = map[string]*u2f.SignResponse{}
 	s.totpAccepted, s.bootUsed, s.cliTok, s.logins = map[string]bool{}, map[string]bool{}, map[string]string{}, map[string]int{}
 	switch s.family {
@@ -82,7 +84,7 @@ func (s *c05Sys) Reset() {
 	}
 }
 
-func (s *c05Sys) Close() { s.w.Close() }
+func (s *c05Sys) Close() { s.w.setPrimaryWriteOutage(false); s.w.Close() }
 
 func c05Decode(w *vfWorld, v string) (sub string, level int, ok bool) {
 	_, cl, _, ok2 := c04Split(v)
@@ -154,6 +156,11 @@ func (s *c05Sys) Ops() []string {
 			}
 		})
 		ops = append(ops, "tick(2s)", "tick(31s)", "tick(61s)")
+		if !s.writeFail {
+			ops = append(ops, "storage(write-fail)")
+		} else {
+			ops = append(ops, "storage(ok)")
+		}
 	case "u2f":
 		cookieIdx(func(i int) {
 			ops = append(ops, fmt.Sprintf("u2fBegin(c%d)", i))
@@ -179,6 +186,11 @@ func (s *c05Sys) Ops() []string {
 			}
 		})
 		ops = append(ops, "tick(59m)", "tick(2m)")
+		if !s.writeFail {
+			ops = append(ops, "storage(write-fail)")
+		} else {
+			ops = append(ops, "storage(ok)")
+		}
 	case "cli":
 		cookieIdx(func(i int) {
 			ops = append(ops, fmt.Sprintf("cliShow(c%d)", i))
@@ -286,7 +298,7 @@ func (s *c05Sys) Canon() string {
 	}
 	sort.Strings(ct)
 	parts = append(parts, "rl="+strings.Join(rl, ","), fmt.Sprintf("pend=%d", pend), "ch="+strings.Join(ch, ","), "ta="+strings.Join(ta, ","), "bu="+strings.Join(bu, ","), "cli="+strings.Join(ct, ","),
-		fmt.Sprintf("t=%d", int(vclock.Now().Sub(time.Unix(vclock.EpochUnix, 0))/time.Second)))
+		fmt.Sprintf("t=%d wf=%v", int(vclock.Now().Sub(time.Unix(vclock.EpochUnix, 0))/time.Second), s.writeFail))
 	return strings.Join(parts, " ")
 }
 
@@ -341,6 +353,10 @@ func (s *c05Sys) Apply(op string) (string, string, string) {
 			fmt.Sscanf(args[0], "%ds", &n)
 		}
 		vclock.Advance(time.Duration(n) * unit)
+		return "ok", "", ""
+	case "storage":
+		s.writeFail = args[0] == "write-fail"
+		s.w.setPrimaryWriteOutage(s.writeFail)
 		return "ok", "", ""
 	case "sweep":
 		// one pass of performStateCleanup's body (the loop itself sleeps forever on the virtual clock)
@@ -661,7 +677,7 @@ func init() {
 	vfRegister(&vfeng.Check{
 		ID:    "C05",
 		Level: "model_checking",
-		Rule:  "explicit-state BFS with canonical-state deduplication over histories of two users and three cookie jars on the real handlers, one search per second-factor family (Symantec VIP OTP+push against a stateful fake, local TOTP, U2F with real soft tokens, bootstrap OTP, CLI token); the adversary attaches any cookie/push cookie it ever obtained to any request, or two session cookies of different users in either order; after every transition each Set-Cookie is decoded and every gained factor bit must be justified by ground truth (whose code / push / device / value it was, freshness, first use); canonical state = profiles' replay counters, cookie pools as (subject, level), push transactions (owner, approved, expired), challenges, rate-limit ages, clock",
+		Rule:  "explicit-state BFS with canonical-state deduplication over histories of two users and three cookie jars on the real handlers, one search per second-factor family, for TOTP and bootstrap OTP including a primary store that answers reads but refuses writes (Symantec VIP OTP+push against a stateful fake, local TOTP, U2F with real soft tokens, bootstrap OTP, CLI token); the adversary attaches any cookie/push cookie it ever obtained to any request, or two session cookies of different users in either order; after every transition each Set-Cookie is decoded and every gained factor bit must be justified by ground truth (whose code / push / device / value it was, freshness, first use); canonical state = profiles' replay counters, cookie pools as (subject, level), push transactions (owner, approved, expired), challenges, rate-limit ages, clock",
 		Assumptions: []string{"the victim approves only pushes on her own device; the fake VIP lets only the owner approve", "the adversary holds at most one password session per user plus its upgrades (re-logins differ only in issue time)", "WebAuthn/FIDO2 and Okta flows are not driven (CBOR attestation and an Okta backend are not modelled)"},
 		Bounds: func(tier string) map[string]interface{} {
 			m := map[string]interface{}{}
